@@ -423,12 +423,14 @@ def mutate(rng, d, hdrlen):
 
 def cj_case(rng):
     k = rng.below(10)
+    tga = 0
     if k < 3:
         d, fam = gif_file(rng), "gif"
         if rng.chance(1, 2):
             d, fam = mutate(rng, d, 13 + 10), "gif-mut"
     elif k < 6:
         d, fam = tga_file(rng), "tga"
+        tga = 0 if (d[0] == 0 and rng.chance(1, 2)) else 1
         if rng.chance(1, 2):
             d, fam = mutate(rng, d, 18), "tga-mut"
     elif k < 8:
@@ -441,7 +443,9 @@ def cj_case(rng):
         d = rng.choice([b"G", b"GIF", b"\x00", b"B", b"P", b""]) + rng.bytes(rng.range(0, 80))
         fam = "random"
     mp = rng.choice([1 << 20, 1 << 20, 4096, 50, 16])
-    return "cj %d %s" % (mp, d.hex()), "cj-" + fam, {"maxpixels": mp}
+    if fam == "random" and rng.chance(1, 4):
+        tga = 1
+    return "cj %d %d %s" % (mp, tga, d.hex()), "cj-" + fam, {"maxpixels": mp}
 
 
 def rt_cases(rng, n_extra):
@@ -554,6 +558,7 @@ def run_cases(ctx, cases, exes, drv, flavours):
 
     ref = outs[flavours[0]]
     disagree = compared = 0
+    outcomes = {}
     for i, (line, kind, meta) in enumerate(cases):
         impl = ref[i]
         cmd = line.split(" ", 1)[0]
@@ -592,11 +597,15 @@ def run_cases(ctx, cases, exes, drv, flavours):
                 if not bad:
                     ctx.broken_tie("correspondence:" + kind,
                                    "model and implementation differ on: %s || model=%s || impl=%s" % (line[:400], mlines[i][:200], impl[:200]))
+        oc = " ".join(impl.split()[:3 if cmd == "cj" else 2]) if not impl.startswith(("ok", "bytes", "rt ok")) else impl.split()[0] + (" ok" if cmd == "rt" else "")
+        outcomes.setdefault(kind, {})
+        outcomes[kind][oc] = outcomes[kind].get(oc, 0) + 1
         ctx.count(kind, 1, (kind, impl[:120]))
         if i % 1499 == 0:
             ctx.sample({"case": line[:300], "impl": impl[:200]})
     ctx.cov["traces_validated_against_impl"] = compared
     ctx.cov["model_impl_disagreements"] = disagree
+    ctx.cov["outcomes_per_stream"] = outcomes
     ctx.cov["rule"] = ("structured PNM files (P2/P3/P5/P6 x header mutations x comments x truncation x maxval 1..65535 x precision 2..16 x "
                        "12 pixel formats x bottom-up x alignment x pixel limit), random bytes, tj3SaveImage outputs, BMP 8/24/32-bit with "
                        "OS/2 and Windows headers and palettes, save/load round trips (PPM at every precision, BMP at 8 bits), GIF and Targa "
